@@ -22,19 +22,21 @@ import (
 )
 
 type e2eScn struct {
-	pull         bool
-	dups         bool
-	depthLimit   int64 // 0 = whole DAG
-	customStore  bool
-	storeViaCfg  bool // pull only: the per-channel store comes from a transport configurer (survives a process restart) instead of an open option
-	forcePause   bool
-	limits       []uint64 // initial limit and raises; a trailing 0 lifts the limit
-	reqFinal     bool
-	pauseAfter   int // initiator pauses after the k-th data event (0 = never)
-	voucherAfter int
-	fault        string // "", "cut-restart-initiator", "cut-restart-responder"
-	faultAtLimit int    // index into limits at which the fault is applied
-	faultAtOpen  bool   // apply the fault while the responder is force-paused, before any block moved
+	pull           bool
+	dups           bool
+	depthLimit     int64 // 0 = whole DAG
+	customStore    bool
+	storeViaCfg    bool // pull only: the per-channel store comes from a transport configurer (survives a process restart) instead of an open option
+	forcePause     bool
+	limits         []uint64 // initial limit and raises; a trailing 0 lifts the limit
+	reqFinal       bool
+	pauseAfter     int // initiator pauses after the k-th data event (0 = never)
+	voucherAfter   int
+	acceptLost     bool   // pull only: the initiator's process is replaced while the responder validates the request, so the accepting response reaches nobody; the new process restarts the channel
+	finalOnVoucher bool   // finalization is released by the responder's application only when the initiator's final voucher arrives
+	fault          string // "", "cut-restart-initiator", "cut-restart-responder"
+	faultAtLimit   int    // index into limits at which the fault is applied
+	faultAtOpen    bool   // apply the fault while the responder is force-paused, before any block moved
 }
 
 func (s e2eScn) String() string {
@@ -42,8 +44,8 @@ func (s e2eScn) String() string {
 	if s.pull {
 		dir = "pull"
 	}
-	return fmt.Sprintf("%s dups=%v depthLimit=%d customStore=%v(viaConfigurer=%v) forcePause=%v limits=%v finalization=%v pauseAfter=%d voucherAfter=%d fault=%q@%d atOpen=%v",
-		dir, s.dups, s.depthLimit, s.customStore, s.storeViaCfg, s.forcePause, s.limits, s.reqFinal, s.pauseAfter, s.voucherAfter, s.fault, s.faultAtLimit, s.faultAtOpen)
+	return fmt.Sprintf("%s dups=%v depthLimit=%d customStore=%v(viaConfigurer=%v) forcePause=%v limits=%v finalization=%v(onVoucher=%v) pauseAfter=%d voucherAfter=%d fault=%q@%d atOpen=%v acceptLost=%v",
+		dir, s.dups, s.depthLimit, s.customStore, s.storeViaCfg, s.forcePause, s.limits, s.reqFinal, s.finalOnVoucher, s.pauseAfter, s.voucherAfter, s.fault, s.faultAtLimit, s.faultAtOpen, s.acceptLost)
 }
 
 const e2eCaseTimeout = 3 * time.Second
@@ -86,6 +88,28 @@ func runE2E(t *rapid.T, scn e2eScn, w *e2eWorld, pl payload, sel datamodel.Node,
 			return scn.limits[limitIdx]
 		}
 		return 0
+	}
+	if scn.acceptLost {
+		var once sync.Once
+		b.val.OnCall = func(c dbl.VCall) {
+			if c.Kind != "pull" {
+				return
+			}
+			once.Do(func() {
+				select {
+				case <-chidKnown:
+				case <-time.After(watchdog):
+					return
+				}
+				logf("the initiator's process is replaced while the responder validates the request: the accepting response will reach nobody")
+				a.restartProcess(t, w.ctx)
+				go func() {
+					time.Sleep(5 * time.Millisecond)
+					err := a.mgr.RestartDataTransferChannel(w.ctx, chid)
+					logf("the new initiator process restarts the channel: %v", err)
+				}()
+			})
+		}
 	}
 	if scn.customStore && !scn.pull {
 		b.configurer = func(datatransfer.ChannelID, datatransfer.TypedVoucher) []datatransfer.TransportOption {
@@ -157,6 +181,14 @@ func runE2E(t *rapid.T, scn e2eScn, w *e2eWorld, pl payload, sel datamodel.Node,
 				err := b.mgr.UpdateValidationStatus(w.ctx, chid, datatransfer.ValidationResult{Accepted: true, DataLimit: nl, RequiresFinalization: scn.reqFinal})
 				logf("re-validated with limit %d: %v", nl, err)
 			}()
+		case evt.Code == datatransfer.BeginFinalizing && scn.finalOnVoucher:
+			logf("responder awaits the initiator's final voucher")
+		case evt.Code == datatransfer.NewVoucher && scn.finalOnVoucher && st.Status() == datatransfer.Finalizing:
+			go func() {
+				time.Sleep(time.Millisecond)
+				err := b.mgr.UpdateValidationStatus(w.ctx, chid, datatransfer.ValidationResult{Accepted: true, RequiresFinalization: false, DataLimit: st.DataLimit()})
+				logf("final voucher arrived, finalization released: %v", err)
+			}()
 		case evt.Code == datatransfer.BeginFinalizing:
 			go func() {
 				time.Sleep(2 * time.Millisecond)
@@ -203,6 +235,15 @@ func runE2E(t *rapid.T, scn e2eScn, w *e2eWorld, pl payload, sel datamodel.Node,
 						err = b.mgr.RestartDataTransferChannel(w.ctx, chid)
 					}
 					logf("restart returned %v", err)
+					if scn.pull {
+						// the transport starts the response of a restarted pull paused when the transfer
+						// had never started ("still unsealing"), whatever the re-validation said: the
+						// responder's application releases it when it is ready, as it would have done
+						// without the interruption
+						time.Sleep(5 * time.Millisecond)
+						err = b.mgr.ResumeDataTransferChannel(w.ctx, chid)
+						logf("responder resumes the never-started transfer after the restart: %v", err)
+					}
 					return
 				}
 				err := b.mgr.UpdateValidationStatus(w.ctx, chid, datatransfer.ValidationResult{Accepted: true, DataLimit: first.DataLimit, RequiresFinalization: scn.reqFinal})
@@ -215,6 +256,14 @@ func runE2E(t *rapid.T, scn e2eScn, w *e2eWorld, pl payload, sel datamodel.Node,
 	dataEvents := 0
 	a.mu.Lock()
 	a.hooks = append(a.hooks, func(evt datatransfer.Event, st datatransfer.ChannelState) {
+		if evt.Code == datatransfer.ResponderBeginsFinalization && scn.finalOnVoucher {
+			// the responder holds its final Complete back: settle with the final voucher
+			id := st.ChannelID()
+			go func() {
+				err := a.mgr.SendVoucher(w.ctx, id, datatransfer.TypedVoucher{Type: e2eType, Voucher: basicnode.NewString("final")})
+				logf("initiator sent its final voucher: %v", err)
+			}()
+		}
 		if evt.Code != datatransfer.DataReceived && evt.Code != datatransfer.DataQueued {
 			return
 		}
@@ -278,6 +327,20 @@ func runE2E(t *rapid.T, scn e2eScn, w *e2eWorld, pl payload, sel datamodel.Node,
 		if e.code == datatransfer.Accept {
 			accepted = true
 		}
+	}
+	// "after the responder accepted it": the responder's own record of the acceptance counts too
+	// (the initiator may never have seen the first response - it was replaced or cut off before
+	// it arrived - and learn of the acceptance only through an accepted restart)
+	acceptLost := false
+	if !accepted {
+		for _, e := range b.eventsOf(chid) {
+			if e.code == datatransfer.Accept {
+				accepted, acceptLost = true, true
+			}
+		}
+	}
+	if acceptLost {
+		logf("the initiator never saw the responder's first (accepting) response")
 	}
 	if final.status != datatransfer.Completed || !accepted {
 		logf("initiator ended %s (%q)", datatransfer.Statuses[final.status], final.vec.Message)
@@ -385,6 +448,15 @@ func TestC01_E2E(t *testing.T) {
 			forcePause:  rapid.IntRange(0, 4).Draw(t, "forcePause") == 0,
 			reqFinal:    rapid.IntRange(0, 2).Draw(t, "finalization") == 0,
 		}
+		if scn.reqFinal {
+			scn.finalOnVoucher = rapid.Bool().Draw(t, "finalizationReleasedByFinalVoucher")
+		}
+		acceptLost := rapid.IntRange(0, 7).Draw(t, "acceptingResponseLost") == 0
+		if f := os.Getenv("VERIF_E2E_FORCE"); strings.Contains(f, "pull") {
+			scn.pull = true
+		} else if strings.Contains(f, "push") {
+			scn.pull = false
+		}
 		w := newE2EWorld(t)
 		defer func() {
 			// stopping both nodes must return: a blocked Stop is a deadlock inside the
@@ -451,11 +523,42 @@ func TestC01_E2E(t *testing.T) {
 			scn.fault = rapid.SampledFrom(faultKinds(scn, sp)).Draw(t, "faultKindAtOpen")
 			scn.faultAtOpen = true
 		}
+		if acceptLost && scn.pull && scn.fault == "" && !scn.forcePause && !(scn.customStore && !scn.storeViaCfg) {
+			scn.acceptLost = true
+		}
 		if rapid.IntRange(0, 3).Draw(t, "userPause") == 0 {
 			scn.pauseAfter = rapid.IntRange(1, 4).Draw(t, "pauseAfter")
 		}
 		if rapid.IntRange(0, 4).Draw(t, "extraVoucher") == 0 {
 			scn.voucherAfter = rapid.IntRange(1, 3).Draw(t, "voucherAfter")
+		}
+		if f := os.Getenv("VERIF_E2E_FORCE"); f != "" {
+			// development aid: pin parts of the scenario (never set by the registered commands)
+			for _, kv := range strings.Split(f, ",") {
+				switch kv {
+				case "store":
+					scn.customStore = true
+				case "cfg":
+					scn.storeViaCfg = true
+				case "atopen":
+					scn.forcePause, scn.faultAtOpen, scn.limits = true, true, nil
+					if scn.fault == "" {
+						scn.fault = "cut-restart-initiator"
+					}
+				case "cutinit":
+					scn.fault = "cut-restart-initiator"
+				case "cutresp":
+					scn.fault = "cut-restart-responder"
+				case "procresp":
+					scn.fault = "process-restart-responder"
+				case "procinit":
+					scn.fault = "process-restart-initiator"
+				case "acceptlost":
+					scn.acceptLost, scn.fault, scn.forcePause = true, "", false
+				case "nopause":
+					scn.pauseAfter, scn.voucherAfter = 0, 0
+				}
+			}
 		}
 		desc := fmt.Sprintf("scenario %s; payload %d blocks (%d positions selected, %d distinct, %d bytes)", scn, pl.blocks, len(order), len(sums), uniqueSize)
 		// the whole scenario runs under a watchdog: every wait inside it is bounded by
@@ -524,6 +627,12 @@ func TestC01_E2E(t *testing.T) {
 			}
 			if scn.reqFinal {
 				sp.Class("completed_with_finalization")
+			}
+			if scn.finalOnVoucher {
+				sp.Class("completed_with_finalization_released_by_final_voucher")
+			}
+			if scn.acceptLost {
+				sp.Class("completed_after_the_accepting_response_was_lost")
 			}
 			if scn.customStore {
 				sp.Class("completed_with_per_channel_store")
